@@ -42,6 +42,86 @@ def strict_run(g, text, recovered):
     return aux
 
 
+_EVAL_NS = {}
+
+
+def _eval_ns():
+    if not _EVAL_NS:
+        import parso.python.tree as pt
+        import parso.tree as t
+        for mod in (t, pt):
+            for k in dir(mod):
+                if not k.startswith('_'):
+                    _EVAL_NS[k] = getattr(mod, k)
+    return _EVAL_NS
+
+
+INDENTS = [None, 0, 1, 4, '', '\t']
+REPLACEMENTS = ['', 'X', 'new_text(1)', 'a\nb', '  # c\n', '\\\n']
+
+
+def roundtrip(tr, g, m, text, order, opts, rng, tid):
+    """C19 observations: pickle round trip, eval(dump(indent)) for every indent style, refactor with node maps"""
+    import pickle
+    aux = tr['aux']
+    tbl_opts = dict(nav=opts.get('nav', False), parts=False, code_budget=opts.get('code_budget', 20000))
+
+    def table(mod):
+        nodes, excs, _ = record.tree_table(mod, **tbl_opts)
+        return nodes
+    try:
+        m2 = pickle.loads(pickle.dumps(m))
+        aux['rts'].append({'kind': 'pickle', 'nodes': table(m2)})
+    except Exception as e:  # noqa
+        aux['rts'].append({'kind': 'pickle-raised:' + record.exc_key(e), 'nodes': []})
+    aux['dids'].append(intern(m.dump(indent=None)))
+    full = INDENTS[tid % len(INDENTS)]
+    for ind in INDENTS:
+        try:
+            m3 = eval(m.dump(indent=ind), dict(_eval_ns()))
+            aux['dids'].append(intern(m3.dump(indent=None)))
+            if ind == full:
+                aux['rts'].append({'kind': 'evaldump:%r' % (ind,), 'nodes': table(m3)})
+        except Exception as e:  # noqa
+            aux['dids'].append(-1)
+            aux['rts'].append({'kind': 'evaldump-raised:%r:%s' % (ind, record.exc_key(e)), 'nodes': []})
+    # refactor: empty map, then up to 3 pairwise disjoint nodes
+    n = len(order)
+    trials = [[]]
+    for _ in range(opts.get('refactors', 3)):
+        k = rng.randint(1, 3)
+        picked = []
+        cand = list(range(1, n))         # never the root itself (index 0)
+        rng.shuffle(cand)
+        ends = record_sub_end(order)
+        for c in cand:
+            if len(picked) >= k:
+                break
+            if not hasattr(order[c], 'children') or order[c].children:
+                if all(ends[c] < p or ends[p] < c for p in picked):
+                    picked.append(c)
+        trials.append(sorted(picked))
+    for sel in trials:
+        strs = [rng.choice(REPLACEMENTS) for _ in sel]
+        try:
+            got = g.refactor(m, {order[i]: s for i, s in zip(sel, strs)})
+            aux['refs'].append({'sel': [i + 1 for i in sel], 'strs': [cps(s) for s in strs], 'got': cps(got)})
+        except Exception as e:  # noqa
+            aux['refs'].append({'sel': [i + 1 for i in sel], 'strs': [cps(s) for s in strs], 'got': [-2]})
+            tr['exc'] = record.exc_key(e)
+
+
+def record_sub_end(order):
+    """index of the last node of each node's subtree (pre-order positions)"""
+    pos = {id(n): i for i, n in enumerate(order)}
+    ends = list(range(len(order)))
+    for i in range(len(order) - 1, -1, -1):
+        ch = getattr(order[i], 'children', None)
+        if ch:
+            ends[i] = ends[pos[id(ch[-1])]]
+    return ends
+
+
 def rec_trees(items, opts):
     """opts: nav, parts, posq (max number of positions, 0 = none), code_budget, bytes (encode the text and parse bytes)"""
     out = []
@@ -49,7 +129,8 @@ def rec_trees(items, opts):
     for tid, text, ver, origin in items:
         tr = {'id': tid, 'ver': ver, 'origin': origin, 'inp': cps(text), 'nodes': [], 'posq': [],
               'raised': False, 'exc': '', 'nontrivial': False,
-              'aux': {'sraised': False, 'sval': [], 'ss': [0, 0], 'sdump': 0, 'rdump': 0, 'stt': ''}}
+              'aux': {'sraised': False, 'sval': [], 'ss': [0, 0], 'sdump': 0, 'rdump': 0, 'stt': '', 'rts': [], 'dids': [],
+                      'refs': []}}
         try:
             src = text
             if opts.get('bytes'):
@@ -62,7 +143,9 @@ def rec_trees(items, opts):
             tr['nodes'] = nodes
             tr['exc'] = ';'.join(sorted(set(excs)))
             if opts.get('modes'):
-                tr['aux'] = strict_run(g, text, m)
+                tr['aux'].update(strict_run(g, text, m))
+            if opts.get('roundtrip'):
+                roundtrip(tr, g, m, text, order, opts, rng, tid)
             if opts.get('posq'):
                 tr['posq'] = record.position_queries(m, text, opts['posq'], rng)
             tr['nontrivial'] = any((not n['leaf'] and i > 0) or n['type'] in ('error_leaf',)
